@@ -425,6 +425,7 @@ def run_a(ctx: Ctx) -> None:
                 env_cost=cfg["env_cost"], max_execs=_DEV_CAP,
             )
             ctx.extra["a_schedules"] += st["schedules"]
+            ctx.extra["config_sizes"].append(f"{json.dumps(cfg, sort_keys=True)} -> {st['schedules']}")
             ctx.extra["a_configs"] += 1
             ctx.extra["a_deadlocks"] += st["deadlocks"]
             ctx.extra["max_choice_points"] = max(ctx.extra["max_choice_points"], st["max_points"])
@@ -725,7 +726,7 @@ def run_b(ctx: Ctx) -> None:
 
 def run(ctx: Ctx) -> None:
     ctx.extra.update({"a_schedules": 0, "a_configs": 0, "a_deadlocks": 0, "max_choice_points": 0, "max_steps": 0,
-                      "b_cases": 0, "b_reused": 0, "b_discarded": 0})
+                      "b_cases": 0, "b_reused": 0, "b_discarded": 0, "config_sizes": []})
     run_a(ctx)
     run_b(ctx)
 
